@@ -2,12 +2,12 @@
    [getitem a s t] is annotation[s, t] (None = no such track); [map_get l mapping] is
    mapping.get(l, l). Proved here: rename_labels (in place and on a copy), subset, and - for the
    library's two generators ('string' and 'int'; [gen_ok] bounds the number of names drawn from the
-   string generator by the fuel of the model's [word], 26^64 - 1) - rename_tracks (every (segment,
+   string generator by the fuel of the model's [word], 26^64 - 1) and for a user-supplied iterable
+   holding enough values without repetition (one that runs dry makes the call fail) - rename_tracks (every (segment,
    label) kept, one track each, k-th track in iteration order named by the k-th generated value),
    relabel_tracks (every (segment, track) kept, nothing added, k-th track labelled by the k-th
    value) and the mapping built by rename_labels(generator=...) (k-th label of labels() -> k-th
-   value). Generated values are pairwise distinct (C19). Tied only: user-supplied iterables as
-   generators (compared exactly with the model). Statements only. *)
+   value). Generated values are pairwise distinct (C19). Statements only. *)
 From PV Require Import Model.AnnotationOps Proofs.DictP Proofs.AnnotationInvP Proofs.RenameSubsetP
   Proofs.AnnCropInterP Proofs.AnnRenameTracksP.
 
@@ -73,6 +73,9 @@ Proof. exact generated_mapping_spec. Qed.
 Theorem C11_generated_values_distinct : forall g n i j, gen_ok g n -> (i < n)%nat -> (j < n)%nat ->
   gen_fun g i = gen_fun g j -> i = j.
 Proof. exact gen_fun_inj. Qed.
+Theorem C11_generator_running_dry_fails : forall eps a l, (List.length l < List.length (itertracks a))%nat ->
+  rename_tracks_ann eps a (GList l) = None /\ relabel_tracks_ann eps a (GList l) = None.
+Proof. exact (fun eps a l H => conj (rename_tracks_exhausted eps a l H) (relabel_tracks_exhausted eps a l H)). Qed.
 
 Example C11_nonvacuous :
   let a := ann_of 0 None None [((0, 4), NStr "x", NStr "a"); ((0, 4), NStr "y", NStr "b"); ((2, 6), NStr "_", NStr "a")] in
@@ -99,3 +102,4 @@ Print Assumptions C11_rename_tracks.
 Print Assumptions C11_relabel_tracks.
 Print Assumptions C11_generated_mapping_follows_label_order.
 Print Assumptions C11_generated_values_distinct.
+Print Assumptions C11_generator_running_dry_fails.
